@@ -210,8 +210,8 @@ def run(ctx, chk):
             side = 'reader' if b.impl_self.endswith('ShmReader') else 'writer'
             from .startup_model import is_reader_new, init_reader_open
             init_reader_open(fb)
-            eng = common.mk_engine(fb, inline_depth=8, loop_unroll=8, no_inline=(is_reader_new if side == 'writer' else None))
-            for q in eng.run(b):
+            eng, qs = common.run_unrolled(fb, b, inline_depth=8, no_inline=(is_reader_new if side == 'writer' else None))
+            for q in qs:
                 if q.kind == 'return' and q.value[0] == 'agg' and q.value[2] == 'Ok':
                     for ef in q.effects:
                         if ef['kind'] == 'call' and common.ptr_advance_bytes(fb, ef) is not None:
